@@ -22,6 +22,7 @@ import json
 import numpy as np
 
 from .data import Data
+from .data_association_enum import DataAssociationEnum
 from .primitive_type_enum import PrimitiveTypeEnum
 
 
@@ -74,6 +75,17 @@ class TextData(Data):
         ):
             raise ValueError(
                 f"Input 'values' for {self} must be of type {np.ndarray}  str or None."
+            )
+
+        if (
+            isinstance(values, np.ndarray)
+            and self.association is not DataAssociationEnum.OBJECT
+            and self.n_values is not None
+            and len(values) > self.n_values
+        ):
+            raise ValueError(
+                f"Input 'values' of shape({self.n_values},) expected. "
+                f"Array of shape{values.shape} provided.)"
             )
 
         self._values = values
